@@ -14,8 +14,9 @@
 (* Crash is enabled in every running state: the process dies and nothing   *)
 (* else happens.                                                           *)
 (*                                                                         *)
-(* File contents are abstract: "Absent", "Old" (whatever was there before) *)
-(* or [sz |-> size in chunks, ch |-> set of <<tensor, chunk>> written].    *)
+(* File contents are abstract records [k, sz, ch]: k = "absent", "old"     *)
+(* (whatever was there before) or "data" with sz = size in chunks and      *)
+(* ch = the set of <<tensor, chunk>> written so far.                       *)
 (* Replace COPIES whatever the temporary file holds at that moment to the  *)
 (* destination; that the destination is then complete is what TLC checks   *)
 (* (OldOrNew), it is not built into the action.                            *)
@@ -73,7 +74,7 @@ SumChunksC(c, S) == IF S = {} THEN 0
 
 TotalC(c, f) == SumChunksC(c, TensC(c, f))
 AllChC(c, f) == UNION {{<<t, j>> : j \in 1..NChunksC(c, t)} : t \in TensC(c, f)}
-NewOfC(c, f) == [sz |-> TotalC(c, f), ch |-> AllChC(c, f)]
+NewOfC(c, f) == [k |-> "data", sz |-> TotalC(c, f), ch |-> AllChC(c, f)]
 OffC(c, f, t, j) == SumChunksC(c, {u \in TensC(c, f) : u < t}) + j - 1
 
 NChunks(t) == NChunksC(cfg, t)
@@ -97,16 +98,18 @@ WellFormedCfg(c) ==
 -------------------------------------------------------------------------------
 (* Initial state of a save for configuration c                               *)
 
+AbsentC == [k |-> "absent", sz |-> 0, ch |-> {}]
+OldC    == [k |-> "old", sz |-> 0, ch |-> {}]
 IdleW == [st |-> "idle", t |-> 0, j |-> 0]
 NoEff == [a |-> "none", t |-> 0, j |-> 0, r |-> "ok"]
 
 InitFor(c) ==
   /\ cfg = c
   /\ files = [f \in 1..NFilesC(c) |->
-                IF InitClass(c, f) = "Old" THEN [data |-> "Old", mode |-> "old"]
-                                           ELSE [data |-> "Absent", mode |-> "none"]]
+                IF InitClass(c, f) = "Old" THEN [data |-> OldC, mode |-> "old"]
+                                           ELSE [data |-> AbsentC, mode |-> "none"]]
   /\ link = (c.dest = "symlink")
-  /\ tdir = FALSE /\ tfile = "Absent" /\ tmode = "none"
+  /\ tdir = FALSE /\ tfile = AbsentC /\ tmode = "none"
   /\ hmain = FALSE /\ hw = [w \in Workers |-> FALSE]
   /\ wk = [w \in Workers |-> IdleW] /\ queue = <<>> /\ cancelled = FALSE /\ wfail = FALSE
   /\ mapped = [t \in c.backed |-> TRUE]        \* worst case: the tensor has been read before
@@ -153,7 +156,7 @@ MkTmpDir(r) ==
 OpenTmp(r) ==
   /\ pc = "opentmp"
   /\ CASE r = "ok" ->
-            /\ tfile' = [sz |-> 0, ch |-> {}] /\ tmode' = "new" /\ hmain' = TRUE
+            /\ tfile' = [k |-> "data", sz |-> 0, ch |-> {}] /\ tmode' = "new" /\ hmain' = TRUE
             /\ Bk("OpenTmp", cur, 0, r, FALSE)
             /\ IF UsePar THEN Ctl("prealloc", sub, cur, nxt, chk)
                          ELSE Ctl("serial", "cb", cur, FirstT(cur), 1)
@@ -214,19 +217,19 @@ CfrFallback(t, w) ==
   /\ UNCHANGED <<cfg, fsv, hv, wv, tv, ctl, exc, out, firstFail, cleanupFail>>
 
 PutChunk(t, j) ==
-  tfile' = [sz |-> MaxOf(tfile.sz, OffC(cfg, cur, t, j) + 1), ch |-> tfile.ch \cup {<<t, j>>}]
+  tfile' = [k |-> "data", sz |-> MaxOf(tfile.sz, OffC(cfg, cur, t, j) + 1), ch |-> tfile.ch \cup {<<t, j>>}]
 
 WriteChunk(t, j, w, r) ==
   /\ r \in {"ok", "fail"}
   /\ \/ /\ pc = "serial" /\ sub = "write" /\ t = nxt /\ j = chk /\ w = 0
-        /\ hmain /\ tfile # "Absent"
+        /\ hmain /\ tfile.k # "absent"
         /\ IF r = "ok"
            THEN /\ PutChunk(t, j) /\ Bk("WriteChunk", t, j, r, FALSE)
                 /\ IF j < NChunks(t) THEN Ctl("serial", "write", cur, nxt, j + 1) ELSE AfterTensor(t)
            ELSE /\ UNCHANGED tfile /\ Bk("WriteChunk", t, j, r, TRUE) /\ Goto("close")
         /\ UNCHANGED wv
      \/ /\ pc = "workers" /\ w \in Workers /\ wk[w].st = "write" /\ wk[w].t = t /\ wk[w].j = j
-        /\ hw[w] /\ tfile # "Absent"
+        /\ hw[w] /\ tfile.k # "absent"
         /\ Bk("WriteChunk", t, j, r, exc)
         /\ IF r = "ok"
            THEN /\ PutChunk(t, j)
@@ -321,7 +324,7 @@ ReleaseMap(t, r) ==
 
 ReleaseDone ==
   /\ pc = "release" /\ \A u \in cfg.backed : ~mapped[u]
-  /\ Goto(IF files[cur].data = "Absent" THEN "replace" ELSE "copymode")     \* os.path.exists(destination)
+  /\ Goto(IF files[cur].data.k = "absent" THEN "replace" ELSE "copymode")     \* os.path.exists(destination)
   /\ UNCHANGED <<cfg, fsv, hv, wv, tv, exc, out, faults, firstFail, cleanupFail, last>>
 
 CopyMode(r) ==
@@ -334,9 +337,9 @@ CopyMode(r) ==
 Replace(r) ==
   /\ pc = "replace" /\ r \in {"ok", "fail"}
   /\ IF r = "ok"
-     THEN /\ tfile # "Absent"
+     THEN /\ tfile.k # "absent"
           /\ files' = [files EXCEPT ![cur] = [data |-> tfile, mode |-> tmode]]
-          /\ tfile' = "Absent" /\ tmode' = "none"
+          /\ tfile' = AbsentC /\ tmode' = "none"
      ELSE UNCHANGED <<files, tfile, tmode>>
   /\ Bk("Replace", cur, 0, r, r = "fail")
   /\ Goto("rmfile")
@@ -345,9 +348,9 @@ Replace(r) ==
 (* finally: os.remove(temporary_path) -- only FileNotFoundError is suppressed   *)
 RmTmpFile(r) ==
   /\ pc = "rmfile"
-  /\ CASE r = "ok"   -> /\ tfile # "Absent" /\ tfile' = "Absent" /\ tmode' = "none"
+  /\ CASE r = "ok"   -> /\ tfile.k # "absent" /\ tfile' = AbsentC /\ tmode' = "none"
                         /\ Bk("RmTmpFile", cur, 0, r, exc) /\ Goto("rmdir") /\ UNCHANGED cleanupFail
-       [] r = "soft" -> /\ tfile = "Absent" /\ UNCHANGED <<tfile, tmode>>
+       [] r = "soft" -> /\ tfile.k = "absent" /\ UNCHANGED <<tfile, tmode>>
                         /\ Bk("RmTmpFile", cur, 0, r, exc) /\ Goto("rmdir") /\ UNCHANGED cleanupFail
        [] r = "fail" -> /\ UNCHANGED <<tfile, tmode>>
                         /\ Bk("RmTmpFile", cur, 0, r, TRUE) /\ Goto("raise") /\ cleanupFail' = TRUE
@@ -358,7 +361,7 @@ RmTmpFile(r) ==
 RmTmpDir(r) ==
   /\ pc = "rmdir" /\ r \in {"ok", "fail"}
   /\ IF r = "ok"
-     THEN /\ tdir /\ tfile = "Absent" /\ tdir' = FALSE
+     THEN /\ tdir /\ tfile.k = "absent" /\ tdir' = FALSE
           /\ Bk("RmTmpDir", cur, 0, r, exc) /\ UNCHANGED cleanupFail
           /\ Goto(IF exc THEN "raise" ELSE "invalidate")
      ELSE /\ UNCHANGED tdir /\ Bk("RmTmpDir", cur, 0, r, TRUE) /\ cleanupFail' = TRUE /\ Goto("raise")
@@ -434,7 +437,45 @@ Control == \/ \E w \in Workers : Take(w)
 EffectStep(names) ==
   \E a \in names, t \in 0..3, j \in 0..2, w \in 0..2, r \in {"ok", "fail", "soft"} : Act(a, t, j, w, r)
 
-Next == out = "running" /\ (EffectStep(Effects) \/ Control \/ Crash)
+(* The same steps as EffectStep(Effects), one named disjunct per effect so that TLC
+   enumerates few candidates and reports coverage per effect.                    *)
+Running == out = "running"
+RF == {"ok", "fail"}
+TW(Op(_, _, _)) == \E t \in 1..cfg.nt, w \in 0..2, r \in RF : Op(t, w, r)
+
+S_CheckExists == Running /\ CheckExists("ok")
+S_MkTmpDir    == Running /\ \E r \in RF : MkTmpDir(r)
+S_OpenTmp     == Running /\ \E r \in RF : OpenTmp(r)
+S_Prealloc    == Running /\ \E r \in RF : Prealloc(r)
+S_CloseTmp    == Running /\ \E r \in RF : CloseTmp(r)
+S_Callback    == Running /\ TW(Callback)
+S_OpenSrc     == Running /\ TW(OpenSrc)
+S_CfrFallback == Running /\ \E t \in cfg.backed, w \in 0..2 : CfrFallback(t, w)
+S_WriteChunk  == Running /\ \E t \in 1..cfg.nt, j \in 1..cfg.nc, w \in 0..2, r \in RF : WriteChunk(t, j, w, r)
+S_Take        == Running /\ \E w \in Workers : Take(w)
+S_OpenWorker  == Running /\ \E w \in Workers, r \in RF : OpenWorker(w, r)
+S_NoticeFail  == Running /\ NoticeFail
+S_Join        == Running /\ Join
+S_CloseWorker == Running /\ \E w \in Workers, r \in RF : CloseWorker(w, r)
+S_NoWorkerHandle == Running /\ NoWorkerHandle
+S_ReleaseMap  == Running /\ \E t \in cfg.backed : ReleaseMap(t, "ok")
+S_ReleaseDone == Running /\ ReleaseDone
+S_CopyMode    == Running /\ \E r \in RF : CopyMode(r)
+S_Replace     == Running /\ \E r \in RF : Replace(r)
+S_RmTmpFile   == Running /\ \E r \in {"ok", "soft", "fail"} : RmTmpFile(r)
+S_RmTmpDir    == Running /\ \E r \in RF : RmTmpDir(r)
+S_Invalidate  == Running /\ \E t \in cfg.backed : Invalidate(t, "ok")
+S_InvalidateDone == Running /\ InvalidateDone
+S_ModelIO     == Running /\ \E r \in RF : ModelIO(r)
+S_Return      == Running /\ Return
+S_Raise       == Running /\ Raise
+S_Crash       == Running /\ Crash
+
+Next ==
+  \/ S_CheckExists \/ S_MkTmpDir \/ S_OpenTmp \/ S_Prealloc \/ S_CloseTmp \/ S_Callback \/ S_OpenSrc
+  \/ S_CfrFallback \/ S_WriteChunk \/ S_Take \/ S_OpenWorker \/ S_NoticeFail \/ S_Join \/ S_CloseWorker
+  \/ S_NoWorkerHandle \/ S_ReleaseMap \/ S_ReleaseDone \/ S_CopyMode \/ S_Replace \/ S_RmTmpFile
+  \/ S_RmTmpDir \/ S_Invalidate \/ S_InvalidateDone \/ S_ModelIO \/ S_Return \/ S_Raise \/ S_Crash
 
 -------------------------------------------------------------------------------
 (* Observation and the property, as predicates over (configuration, observation)
@@ -442,7 +483,8 @@ Next == out = "running" /\ (EffectStep(Effects) \/ Control \/ Crash)
    observed on the real code.                                                   *)
 
 DataClass(f) == LET d == files[f].data IN
-                IF d \in {"Absent", "Old"} THEN d ELSE IF d = NewOfC(cfg, f) THEN "New" ELSE "Partial"
+                IF d.k = "absent" THEN "Absent" ELSE IF d.k = "old" THEN "Old"
+                ELSE IF d = NewOfC(cfg, f) THEN "New" ELSE "Partial"
 
 Obs == [files |-> [f \in 1..NFilesC(cfg) |-> DataClass(f)],
         modes |-> [f \in 1..NFilesC(cfg) |-> files[f].mode],
@@ -459,7 +501,7 @@ P_FailKeepsOld(c, o) ==
   (o.out = "raised" /\ o.prodFail) =>
      /\ \A f \in DOMAIN o.files : InitClass(c, f) = "Old" => o.files[f] = "Old"
      /\ o.invalid = {}
-     /\ (~o.cleanupFail => ~o.tdir /\ o.tfile = "Absent")
+     /\ (~o.cleanupFail => ~o.tdir /\ o.tfile.k = "absent")
 
 P_InvalidateOnlyIfReplaced(c, o) == o.invalid # {} => o.files[1] = "New"
 
@@ -477,10 +519,10 @@ AbsentOrNew              == D_AbsentOrNew(cfg, Obs)
 (* mechanism invariants of the design *)
 TypeOK ==
   /\ out \in {"running", "ok", "raised", "crashed"}
-  /\ tfile = "Absent" \/ (tfile.sz \in 0..6 /\ tfile.ch \subseteq AllChC(cfg, cur))
-  /\ (tfile # "Absent" => tdir)
-  /\ (hmain => tfile # "Absent")
+  /\ tfile = AbsentC \/ (tfile.k = "data" /\ tfile.sz \in 0..6 /\ tfile.ch \subseteq AllChC(cfg, cur))
+  /\ (tfile.k # "absent" => tdir)
+  /\ (hmain => tfile.k # "absent")
   /\ link = (cfg.dest = "symlink")
-ReturnsClean == out = "ok" => (~tdir /\ tfile = "Absent" /\ \A f \in 1..NFilesC(cfg) : DataClass(f) = "New")
+ReturnsClean == out = "ok" => (~tdir /\ tfile.k = "absent" /\ \A f \in 1..NFilesC(cfg) : DataClass(f) = "New")
 MapsReleasedBeforeReplace == \A t \in cfg.backed : (DataClass(1) = "New" => ~mapped[t])
 =============================================================================
